@@ -8,6 +8,7 @@ import Driver.NumDrv
 import Driver.VerDrv
 import Driver.DiagDrv
 import Driver.TcDrv
+import Driver.SrcDrv
 
 def main (args : List String) : IO UInt32 := do
   match args with
@@ -21,4 +22,5 @@ def main (args : List String) : IO UInt32 := do
   | "verify" :: rest => VerDrv.main rest
   | ["diag"] => DiagDrv.main; return 0
   | ["tc"] => TcDrv.main; return 0
+  | ["src"] => SrcDrv.main; return 0
   | _ => IO.eprintln "usage: nmdrv gc|..."; return 2
